@@ -762,3 +762,28 @@ class _FreshLocals:
         if k not in self._vals:
             self._vals[k] = self._eng.fresh("callee_local_" + k)
         return self._vals[k]
+
+
+@lib("any", "all")
+def _anyall(eng, a, kw, st, fr, k, node):
+    name = dotted_name(node.func)
+    x = a[0]
+    if isinstance(x, (list, tuple)):
+        if not x:
+            return k(z3.BoolVal(name == "all"), st)
+        ts = [eng.truth(v) for v in x]
+        return k(z3.And(*ts) if name == "all" else z3.Or(*ts), st)
+    if isinstance(x, Opq):
+        return k(z3.Function("fn:" + name, V, z3.BoolSort())(x.t), st)
+    if isinstance(x, (Vec, Arr)):
+        v = eng.as_vec(x, st)
+        q = eng.S.forall if name == "all" else eng.S.exists
+        return k(q(0, v.n, lambda i: eng.truth(v.fn(i))), st)
+    raise Unsupported(name + " of " + type(x).__name__)
+
+
+@lib("set")
+def _set(eng, a, kw, st, fr, k, node):
+    if not a:
+        return k(Opq(z3.Const("emptyset", V)), st)
+    return k(Opq(z3.Function("fn:set", V, V)(eng.to_v(a[0]))), st)
